@@ -5,7 +5,7 @@ For every mutant: apply the textual replacement in /repo, run the repository's t
 (to learn whether the 77 tests notice), run the property's quick check, revert, and append a JSON
 line to /verif/mutants_results.jsonl. Nothing is ever committed to /repo.
 """
-import json, subprocess, sys, time
+import json, os, subprocess, sys, time
 
 M = [
     # (name, property, file, old, new)
@@ -55,21 +55,33 @@ def sh(cmd, **kw):
     return subprocess.run(cmd, shell=True, capture_output=True, text=True, **kw)
 
 
+REPO = "/repo"
+CHECK = "/verif/check"
+
+
 def main():
-    only = set(sys.argv[1:])
-    assert sh("git -C /repo diff --quiet").returncode == 0, "/repo has uncommitted changes"
+    global REPO, CHECK
+    args = sys.argv[1:]
+    if args[:1] == ["--slot"]:
+        # run in a scratch slot (tools/slot.sh setup <n>): /repo itself is not touched
+        REPO, CHECK = f"/tmp/slot/{args[1]}/repo", f"/tmp/slot/{args[1]}/verif/check"
+        args = args[2:]
+    only = set(args)
+    if not only and os.path.exists("/verif/mutants_results.jsonl"):
+        os.remove("/verif/mutants_results.jsonl")
+    assert sh(f"git -C {REPO} diff --quiet").returncode == 0, f"{REPO} has uncommitted changes"
     for name, prop, path, old, new in M:
         if only and name not in only:
             continue
         if path is None:
-            if sh(f"git -C /repo apply /verif/{old}").returncode != 0:
+            if sh(f"git -C {REPO} apply /verif/{old}").returncode != 0:
                 rec = {"mutant": name, "property": prop, "error": "patch does not apply"}
                 open("/verif/mutants_results.jsonl", "a").write(json.dumps(rec) + "\n")
                 print(rec, flush=True)
                 continue
             full, src, path = None, None, old
         else:
-            full = f"/repo/{path}"
+            full = f"{REPO}/{path}"
             src = open(full).read()
         if full and src.count(old) != 1:
             rec = {"mutant": name, "property": prop, "error": f"pattern occurs {src.count(old)} times"}
@@ -79,18 +91,19 @@ def main():
         if full:
             open(full, "w").write(src.replace(old, new))
         try:
-            t = sh("cd /repo && cargo test --workspace --no-fail-fast --offline 2>&1 | grep -E '^test result|error(\\[|:)' | awk '/test result/ {p+=$4; f+=$6} /error/ {e+=1} END {print p+0\" \"f+0\" \"e+0}'")
+            t = sh(f"cd {REPO} && " + "cargo test --workspace --no-fail-fast --offline 2>&1 | grep -E '^test result|error(\\[|:)' | awk '/test result/ {p+=$4; f+=$6} /error/ {e+=1} END {print p+0\" \"f+0\" \"e+0}'")
             p, f, e = (t.stdout.split() + ["0", "0", "0"])[:3]
-            c = sh(f"/verif/check {prop} quick")
+            c = sh(f"{CHECK} {prop} quick")
             lines = [l for l in c.stdout.splitlines() if l.startswith(("VIOLATION", "MACHINERY"))]
             rec = {"mutant": name, "property": prop, "file": path, "suite_passed": int(p), "suite_failed": int(f), "compile_errors": int(e),
                    "check_exit": c.returncode, "check_lines": lines[:4]}
         finally:
-            sh("git -C /repo checkout -- .")
+            sh(f"git -C {REPO} checkout -- .")
         open("/verif/mutants_results.jsonl", "a").write(json.dumps(rec) + "\n")
         print(json.dumps(rec)[:300], flush=True)
-    sh("cd /verif/harness && cargo build --release --offline --workspace")
-    sh("find /verif/replays -mindepth 1 -delete")
+    if REPO == "/repo":
+        sh("cd /verif/harness && cargo build --release --offline --workspace")
+        sh("find /verif/replays -mindepth 1 -delete")
     print("mutants done")
 
 
